@@ -405,3 +405,83 @@ func init() {
 	pkgScope["C02"] = append(pkgScope["C02"], "x/pos/keeper", "x/pos")
 	pkgScope["C20"] = append(pkgScope["C20"], "types")
 }
+
+// substoreNamespaces: every substore has its own key space (C12/C13/C14).
+func substoreNamespaces(r *Run, rule string) {
+	P := r.P
+	r.Rule(rule, "every substore has its own key space: loadCommitStoreFromParams opens a store mounted with its own database on that database (prefix s/_/), and every other store on the root database under s/k:<its name>/", 2)
+	f := r.fn("(*store/rootmulti.Store).loadCommitStoreFromParams")
+	if f == nil {
+		return
+	}
+	n := 0
+	for _, c := range CallsIn(f, "github.com/tendermint/tm-db.NewPrefixDB") {
+		n++
+		t := P.callTerm(c)
+		db, pfx := argTerm(t, 0).String(), argTerm(t, 1).String()
+		own, _ := HasAtom(P.LocalGuards(c), `^!isnil\(param:params\.db\)$`)
+		shared, _ := HasAtom(P.LocalGuards(c), `^isnil\(param:params\.db\)$`)
+		ok := (own && db == "param:params.db" && pfx == `"s/_/"`) ||
+			(shared && db == "param:rs.DB" && pfx == `(("s/k:" + store/types.StoreKey.Name(param:params.key)) + "/")`)
+		r.Check(ok, rule, fmt.Sprintf("loadCommitStoreFromParams/namespace#%d", n), P.InstrPos(c), "own db + s/_/ or root db + s/k:name/", "a substore is opened on "+db+" with prefix "+oneLine(pfx)+" under {"+strings.Join(atomStrings(P.LocalGuards(c)), " ; ")+"}: two stores would share one key space, and after a reopen one silently reads the other's tree")
+	}
+	if n < 2 {
+		r.Viol(rule, "loadCommitStoreFromParams/namespaces", P.Pos(f.Pos()), fmt.Sprintf("%d of the 2 namespace constructions found", n))
+	}
+}
+
+// decCoinsArithmeticTable: the set operations apply the operation their name says to every coin (C18).
+func decCoinsArithmeticTable(r *Run, rule string) {
+	P := r.P
+	r.Rule(rule, "DecCoins arithmetic rounds the way its name says: MulDec uses Dec.Mul, MulDecTruncate Dec.MulTruncate, QuoDec Dec.Quo, QuoDecTruncate Dec.QuoTruncate on every coin amount (and no other Dec multiplication or division)", 4)
+	ops := []string{"(types.Dec).Mul", "(types.Dec).MulTruncate", "(types.Dec).Quo", "(types.Dec).QuoTruncate", "(types.Dec).QuoRoundUp"}
+	for _, w := range []struct{ fn, op string }{
+		{"(types.DecCoins).MulDec", "(types.Dec).Mul"}, {"(types.DecCoins).MulDecTruncate", "(types.Dec).MulTruncate"},
+		{"(types.DecCoins).QuoDec", "(types.Dec).Quo"}, {"(types.DecCoins).QuoDecTruncate", "(types.Dec).QuoTruncate"},
+	} {
+		f := r.fn(w.fn)
+		if f == nil {
+			continue
+		}
+		var used []string
+		Instrs(f, func(in ssa.Instruction) {
+			if ci, ok := in.(ssa.CallInstruction); ok {
+				_, n := calleeName(ci.Common())
+				for _, o := range ops {
+					if n == o {
+						used = append(used, n)
+					}
+				}
+			}
+		})
+		r.Check(len(used) == 1 && used[0] == w.op, rule, short(w.fn)+"/operation", P.Pos(f.Pos()), w.op, short(w.fn)+" applies {"+strings.Join(used, ", ")+"} to the amounts ; required exactly "+w.op)
+	}
+}
+
+// anchorOnly: make functions anchors of a property so that the table-driven rules cover them.
+func anchorOnly(names ...string) func(r *Run) {
+	return func(r *Run) {
+		for _, n := range names {
+			r.fnOpt(n)
+		}
+	}
+}
+
+func init() {
+	extend("C12", func(r *Run) {
+		substoreNamespaces(r, "C12-R15")
+		r.borrow("C16", "C16-R4", "C12-R16")
+	})
+	extend("C13", func(r *Run) { substoreNamespaces(r, "C13-R12") })
+	extend("C14", func(r *Run) {
+		substoreNamespaces(r, "C14-R17")
+		pruningConfig(r, "C14-R18")
+		r.borrow("C12", "C12-R3", "C14-R19")
+		r.borrow("C12", "C12-R6", "C14-R20")
+	})
+	extend("C18", func(r *Run) { decCoinsArithmeticTable(r, "C18-R15") })
+	// anchors first, so that the generic rules that follow see them
+	extensions["C12"] = append([]checkFn{anchorOnly("(types.Context).PrevCtx")}, extensions["C12"]...)
+	extensions["C14"] = append([]checkFn{anchorOnly("(types.Context).PrevCtx")}, extensions["C14"]...)
+	extensions["C03"] = append([]checkFn{anchorOnly("(types.Int).GT", "(types.Int).GTE", "(types.Int).LT", "(types.Int).LTE", "(types.Coins).IsAllGTE", "(types.Coins).IsAllGT")}, extensions["C03"]...)
+}
